@@ -135,11 +135,16 @@ CheckOmNormalize(ev) ==
 
 (* ------------------------- dyadic and SO(3) matrices ------------------- *)
 \* value must agree; the representation must be the canonical one whenever the least denominator exponent is >= 0
-Judge2C(op, ref, out) == CHOOSE v \in {IF ~M2ValEqV(out, ref) THEN R("V", op \o ":value", 0)
+\* (exponents further apart than 24 cannot belong to equal values with entries below 2^13 unless the result is grossly
+\*  unnormalised; lifting over such a distance would overflow)
+KNear(A, B) == AbsI(A.k - B.k) <= 24
+Judge2C(op, ref, out) == CHOOSE v \in {IF ~KNear(out, ref) THEN R("V", op \o ":result-out-of-range", 0)
+                                       ELSE IF ~M2ValEqV(out, ref) THEN R("V", op \o ":value", 0)
                                        ELSE IF out = c THEN OK
                                        ELSE IF c.k >= 0 THEN R("V", op \o ":not-normalised", 0)
                                        ELSE R("D", op \o ":non-canonical-representation", 0) : c \in {M2CanonV(ref)}} : TRUE
-Judge3C(op, ref, out) == CHOOSE v \in {IF ~M3ValEqV(out, ref) THEN R("V", op \o ":value", 0)
+Judge3C(op, ref, out) == CHOOSE v \in {IF ~KNear(out, ref) THEN R("V", op \o ":result-out-of-range", 0)
+                                       ELSE IF ~M3ValEqV(out, ref) THEN R("V", op \o ":value", 0)
                                        ELSE IF out.k = c.k /\ \A m \in 1..9 : out.e[m] = c.e[m] THEN OK
                                        ELSE IF c.k >= 0 THEN R("V", op \o ":not-normalised", 0)
                                        ELSE R("D", op \o ":non-canonical-representation", 0) : c \in {M3CanonV(ref)}} : TRUE
@@ -174,7 +179,8 @@ CheckDyLaw(ev) ==
   IF ev.exc # "" THEN R("V", tag \o ":exception", 0)
   ELSE IF ~(IsM2(ev.out) /\ IsM2(ev.out2)) THEN R("V", tag \o ":malformed", 0)
   ELSE IF ~(InRange2(ev.out) /\ InRange2(ev.out2)) THEN R("V", tag \o ":result-out-of-range", 0)
-  ELSE CHOOSE v \in {IF ~M2ValEqV(a, b) THEN R("V", tag \o ":sides-differ", 0)
+  ELSE CHOOSE v \in {IF ~(KNear(a, b) /\ KNear(a, ref)) THEN R("V", tag \o ":result-out-of-range", 0)
+                     ELSE IF ~M2ValEqV(a, b) THEN R("V", tag \o ":sides-differ", 0)
                      ELSE IF ~M2ValEqV(a, ref) THEN R("V", tag \o ":differs-from-reference", 0)
                      ELSE IF ev.n = 1 THEN OK
                      ELSE IF M2CanonV(ref).k >= 0 THEN R("V", tag \o ":class-equality-fails", 0)
@@ -188,7 +194,8 @@ CheckSo3(ev) ==
   ELSE IF ev.op = "so3.matmul" THEN F3(Judge3C, ev.op, M3MulV(D3(ev.x), D3(ev.y)), D3(ev.out))
   ELSE \* so3.hom: out = SO3(A) @ SO3(B), out2 = SO3(A @ B), x = A, y = B (unitary up to a scalar)
        IF ~InRange3(ev.out2) THEN R("V", "so3.hom:malformed-or-out-of-range", 0)
-       ELSE CHOOSE v \in {IF ~M3ValEqV(a, b) THEN R("V", "so3.hom:not-a-homomorphism", 0)
+       ELSE CHOOSE v \in {IF ~(KNear(a, b) /\ KNear(a, ref)) THEN R("V", "so3.hom:result-out-of-range", 0)
+                          ELSE IF ~M3ValEqV(a, b) THEN R("V", "so3.hom:not-a-homomorphism", 0)
                           ELSE IF ~M3ValEqV(a, ref) THEN R("V", "so3.hom:differs-from-reference", 0)
                           ELSE IF ev.n = 1 THEN OK
                           ELSE IF M3CanonV(ref).k >= 0 THEN R("V", "so3.hom:class-equality-fails", 0)
@@ -211,7 +218,7 @@ CheckSqrtMod(ev) ==
   LET a == ev.x[1]  p == ev.x[2] IN
   IF ev.exc = "" THEN (IF Len(ev.out) = 1 /\ ev.out[1] \in 0..p - 1 /\ (ev.out[1] * ev.out[1]) % p = a % p THEN OK
                        ELSE R("V", "sqrtmod:not-a-root", p))
-  ELSE IF p <= 4096 /\ \E r \in 0..p - 1 : (r * r) % p = a % p THEN R("D", "sqrtmod:missed-root", p) ELSE OK
+  ELSE IF p <= 1024 /\ \E r \in 0..p - 1 : (r * r) % p = a % p THEN R("D", "sqrtmod:missed-root", p) ELSE OK
 \* x = xi in Z[sqrt2]; a returned t in Z[omega] must satisfy t^+ t = xi;  z = a witness solution when the driver knows one
 CheckDioph(ev) ==
   IF ev.exc = "" THEN (IF Len(ev.out) = 4 /\ Within(ev.out, MaxI(AbsI(ev.x[1]), 1)) /\ AbsI(ev.x[1]) <= 32768       \* t^+ t = xi forces SumSq(t) = xi[1]
